@@ -5,12 +5,17 @@ package main
 
 import (
 	"bytes"
+	"go/ast"
+	"go/parser"
+	"go/token"
+	"path/filepath"
 	"crypto/ecdsa"
 	"crypto/sha256"
 	"encoding/hex"
 	"fmt"
 	"math/big"
 	"os"
+	"sort"
 	"strconv"
 	"strings"
 
@@ -648,6 +653,30 @@ func nativeMutants(r *hx.Rng, base *types.Transaction, sk *common.PrivateKey, th
 			}
 		}
 	}
+	if thorough { // every single-bit flip of every string field
+		for _, f := range fields {
+			f := f
+			orig := *f.get(base)
+			for bit := 0; bit < 8*len(orig); bit++ {
+				bit := bit
+				add("bit:"+f.name, "C07/native-mutation:"+f.name, func(t *types.Transaction) {
+					b := []byte(orig)
+					b[bit/8] ^= 1 << uint(bit%8)
+					*f.get(t) = string(b)
+				})
+			}
+		}
+		for bit := 0; bit < 64; bit++ {
+			bit := bit
+			add("bit:Nonce", "C07/native-mutation:Nonce", func(t *types.Transaction) { t.Nonce ^= 1 << uint(bit) })
+		}
+		for bit := 0; bit < 32; bit++ {
+			bit := bit
+			if base.Type^(1<<uint(bit)) != 188 {
+				add("bit:Type", "C07/native-mutation:Type", func(t *types.Transaction) { t.Type ^= 1 << uint(bit) })
+			}
+		}
+	}
 	for _, c := range []string{"", "0", "9501", "0" + chainStr, chainStr + " ", " " + chainStr, "2025", "9527", "+" + chainStr} {
 		c := c
 		add("field:ChainId", "C07/native-mutation:ChainId", func(t *types.Transaction) { t.ChainId = c })
@@ -908,7 +937,7 @@ func wrapBytes(enc []byte, sender common.Address) *types.Transaction {
 	return eth_tx.ConvertTx(et, sender, enc)
 }
 
-func ethMutants(r *hx.Rng, b *ethBase) []mutant {
+func ethMutants(r *hx.Rng, b *ethBase, thorough bool) []mutant {
 	var ms []mutant
 	add := func(class, key string, t *types.Transaction) {
 		if t != nil {
@@ -974,9 +1003,16 @@ func ethMutants(r *hx.Rng, b *ethBase) []mutant {
 	add("eth-extra:garbage-tail", "C07/eth-mutation:ExtraData", mod(func(t *types.Transaction) { t.ExtraData = "0x" + hexs + "zz" }))
 	add("eth-extra:truncated", "C07/eth-mutation:ExtraData", mod(func(t *types.Transaction) { t.ExtraData = "0x" + hexs[:len(hexs)-2] }))
 	add("eth-extra:empty", "C07/eth-mutation:ExtraData", mod(func(t *types.Transaction) { t.ExtraData = "" }))
-	for i := 0; i < 6; i++ { // bit flips in the payload, declared fields untouched
+	nflip := 6
+	if thorough {
+		nflip = 8 * len(b.enc)
+	}
+	for i := 0; i < nflip; i++ { // bit flips in the payload, declared fields untouched
 		e := append([]byte{}, b.enc...)
 		bit := r.Intn(8 * len(e))
+		if thorough {
+			bit = i
+		}
 		e[bit/8] ^= 1 << uint(bit%8)
 		add("eth-extra:bitflip", "C07/eth-mutation:ExtraData", mod(func(t *types.Transaction) { t.ExtraData = hex0x(e) }))
 		// ... and the declared fields recomputed for the original sender (attacker rebuilds the wrapper)
@@ -1068,13 +1104,98 @@ func ethMutants(r *hx.Rng, b *ethBase) []mutant {
 	return ms
 }
 
+// ---------- static tie: field lists read from the Go sources ----------
+func repoDir() string {
+	if d := os.Getenv("VERIF_REPO"); d != "" {
+		return d
+	}
+	return "/repo"
+}
+
+func funcBody(file, name string) *ast.BlockStmt {
+	f, err := parser.ParseFile(token.NewFileSet(), filepath.Join(repoDir(), file), nil, 0)
+	if err != nil {
+		return nil
+	}
+	for _, d := range f.Decls {
+		if fd, ok := d.(*ast.FuncDecl); ok && fd.Name.Name == name {
+			return fd.Body
+		}
+	}
+	return nil
+}
+
+// the tx.<Field> selectors inside n, in source order
+func txFields(n ast.Node, recv string) []string {
+	var out []string
+	ast.Inspect(n, func(x ast.Node) bool {
+		if se, ok := x.(*ast.SelectorExpr); ok {
+			if id, ok := se.X.(*ast.Ident); ok && id.Name == recv {
+				out = append(out, se.Sel.Name)
+			}
+		}
+		return true
+	})
+	return out
+}
+
+func astTie() {
+	// Transaction.GenHash: the sequence of buffer.Write(...) arguments = the model's [preimage]
+	want := "Data,Nonce,Source,Target,Type,Time,ExtraData,ChainId"
+	var got []string
+	if b := funcBody("src/middleware/types/transaction.go", "GenHash"); b != nil {
+		ast.Inspect(b, func(x ast.Node) bool {
+			if c, ok := x.(*ast.CallExpr); ok {
+				if se, ok := c.Fun.(*ast.SelectorExpr); ok && se.Sel.Name == "Write" {
+					if id, ok := se.X.(*ast.Ident); ok && id.Name == "buffer" {
+						got = append(got, strings.Join(txFields(c, "tx"), "+"))
+						return false
+					}
+				}
+			}
+			return true
+		})
+	}
+	if g := strings.Join(got, ","); g != want {
+		res.Violate("C07/model-tie:genhash-field-order", "Transaction.GenHash writes the fields "+g+" but the Coq model's preimage is "+want+" (the model no longer describes the code)", g)
+	} else {
+		res.Note("static tie: GenHash buffer writes (go/ast) = " + g)
+	}
+	// compareTx: the set of compared fields = the model's [compare_tx]
+	wantCmp := "ChainId,Data,ExtraData,Hash,Nonce,Source,Target,Type"
+	set := map[string]bool{}
+	if b := funcBody("src/service/transaction_pool.go", "compareTx"); b != nil {
+		ast.Inspect(b, func(x ast.Node) bool {
+			if be, ok := x.(*ast.BinaryExpr); ok && be.Op == token.NEQ {
+				l, r := txFields(be.X, "tx"), txFields(be.Y, "expectedTx")
+				if len(l) == 1 && len(r) == 1 && l[0] == r[0] {
+					set[l[0]] = true
+				}
+			}
+			return true
+		})
+	}
+	var names []string
+	for k := range set {
+		names = append(names, k)
+	}
+	sort.Strings(names)
+	if g := strings.Join(names, ","); g != wantCmp {
+		res.Violate("C07/model-tie:comparetx-fields", "compareTx compares "+g+" but the Coq model's compare_tx compares "+wantCmp, g)
+	} else {
+		res.Note("static tie: compareTx fields (go/ast) = " + g)
+	}
+}
+
 // ---------- evaluation ----------
 var classSeen = map[string]int{}
 var caseNo int
 
+var sampleOneIn = 40
+
 func toModel(r *hx.Rng, class string, quota int) bool {
 	classSeen[class]++
-	return classSeen[class] <= quota || r.Intn(40) == 0
+	return classSeen[class] <= quota || r.Intn(sampleOneIn) == 0
 }
 
 func main() {
@@ -1095,12 +1216,14 @@ func main() {
 		fmt.Println("chain id configuration is not a decimal number:", chainStr)
 		os.Exit(2)
 	}
+	astTie()
 	r := hx.NewRng(a.Seed)
 	cs = hx.NewCases(a.Out, "From Coq Require Import ZArith.\nFrom V.C07 Require Import Model Harness.", "fld * N * tx * list oent * obs", "check", 150)
 	thorough := a.Tier == "thorough"
 	quota := 10
 	if thorough {
-		quota = 100
+		quota = 40
+		sampleOneIn = 100
 	}
 	ident := func(class string, tx *types.Transaction) string {
 		sg := ""
@@ -1187,7 +1310,7 @@ func main() {
 		if i < 2 {
 			res.Sample(map[string]interface{}{"class": "honest:eth-eip155", "tx": jsonTx(b.wrap)})
 		}
-		for _, m := range ethMutants(r, b) {
+		for _, m := range ethMutants(r, b, thorough && i < 3) {
 			eval(m.class, m.key, m.tx, false)
 		}
 	}
